@@ -204,7 +204,9 @@ def bigPrimOf (ee wire : Ty) : Option Prim :=
   | .prim .int, .prim .nat => some .nat
   | _, _ => none
 
-/-- `vec` whose expected type is not a blob: `add_cost(1)` was charged by the caller -/
+/-- `vec` whose expected type is not a blob: `add_cost(1)` was charged by the caller.  `len.checked_mul(cost)` failing
+("Vec length overflow") is reported as `err limit`: a limit of the host, like an exhausted depth budget (the theorems
+that compare this reader with the specification, which has no such limit, except it together with starvation) -/
 def deVecCase (env : Env) (vis : Visitor) (fuel : Nat) (dAny : Ty → Ty → St → R Val) (dIgn : Ty → St → R Val)
     (w ee : Ty) (s1 : St) : R Val :=
   match w with
@@ -216,14 +218,14 @@ def deVecCase (env : Env) (vis : Visitor) (fuel : Nat) (dAny : Ty → Ty → St 
          match exactPrim ee wire with
          | some p =>
            let size := (primSize p).getD 1
-           if n * (3 + size) > usizeMax then .err .other else
+           if n * (3 + size) > usizeMax then .err .limit else
            (addCost s2 (n * (3 + size))).bind fun _ s3 =>
              if n * size > s3.input.length then .err .eof
              else (iterV (fun s => rd (decPrim p) s) n s3).map Val.vec
          | none =>
            match bigPrimOf ee wire with
            | some wp =>
-             if n * 3 > usizeMax then .err .other else
+             if n * 3 > usizeMax then .err .limit else
              (addCost s2 (n * 3)).bind fun _ s3 =>
                (iterV (fun s =>
                  if wp = .nat then bigNum (natAs fun m => if ee = .prim .int then .int m else .nat m) s
